@@ -23,11 +23,15 @@ import (
 // ConstEvaluator caches map-literal globals and bounds the work.
 type ConstEvaluator struct {
 	maps  map[*ssa.Global]map[string]constant.Value // key: ExactString of the key constant
+	cells map[*ssa.Global]map[string]constant.Value // key: path of constant indices and field numbers below the global
 	steps int
+	// Override replaces the result of a function of the package by fixed constants (to read a table "as if" an
+	// inner table had returned a given row).
+	Override map[*ssa.Function][]constant.Value
 }
 
 func NewConstEvaluator() *ConstEvaluator {
-	return &ConstEvaluator{maps: map[*ssa.Global]map[string]constant.Value{}}
+	return &ConstEvaluator{maps: map[*ssa.Global]map[string]constant.Value{}, cells: map[*ssa.Global]map[string]constant.Value{}, Override: map[*ssa.Function][]constant.Value{}}
 }
 
 type tupleVal []constant.Value
@@ -126,6 +130,23 @@ func (ce *ConstEvaluator) eval(fn *ssa.Function, args []constant.Value, depth in
 					if c, ok := get(x.X); ok && c.Kind() == constant.Int {
 						env[x] = constant.UnaryOp(token.SUB, c, 0)
 					}
+				case token.MUL:
+					// a load of one cell of a package-level array / struct that is only written by its literal
+					g, path, ok := ce.addrPath(x.X, get)
+					if !ok || path == "" {
+						continue
+					}
+					tab, err := ce.globalCells(g)
+					if err != nil {
+						return nil, err
+					}
+					if v, found := tab[path]; found {
+						if v != nil {
+							env[x] = v
+						}
+					} else if z := zeroConst(x.Type()); z != nil {
+						env[x] = z
+					}
 				}
 			case *ssa.Convert:
 				if c, ok := get(x.X); ok {
@@ -177,6 +198,14 @@ func (ce *ConstEvaluator) eval(fn *ssa.Function, args []constant.Value, depth in
 			case *ssa.Call:
 				cal := x.Call.StaticCallee()
 				if cal == nil || x.Call.IsInvoke() || cal.Pkg != fn.Pkg || len(cal.Blocks) == 0 {
+					continue
+				}
+				if ov, ok := ce.Override[cal]; ok {
+					if len(ov) == 1 {
+						env[x] = ov[0]
+					} else {
+						tup[x] = ov
+					}
 					continue
 				}
 				cargs := make([]constant.Value, len(x.Call.Args))
@@ -331,6 +360,165 @@ func (ce *ConstEvaluator) mapLiteral(g *ssa.Global) (map[string]constant.Value, 
 		}
 	}
 	ce.maps[g] = tab
+	return tab, nil
+}
+
+// addrPath resolves an address below a package-level variable: constant (or, with get, propagated) indices and
+// field numbers.
+func (ce *ConstEvaluator) addrPath(v ssa.Value, get func(ssa.Value) (constant.Value, bool)) (*ssa.Global, string, bool) {
+	switch x := v.(type) {
+	case *ssa.Global:
+		return x, "", true
+	case *ssa.IndexAddr:
+		if _, isArr := x.X.Type().Underlying().(*types.Pointer); !isArr {
+			return nil, "", false
+		}
+		g, p, ok := ce.addrPath(x.X, get)
+		if !ok {
+			return nil, "", false
+		}
+		var k constant.Value
+		if c, isC := x.Index.(*ssa.Const); isC && c.Value != nil {
+			k = c.Value
+		} else if get != nil {
+			if c, ok := get(x.Index); ok {
+				k = c
+			}
+		}
+		if k == nil || k.Kind() != constant.Int {
+			return nil, "", false
+		}
+		return g, p + "[" + k.ExactString() + "]", true
+	case *ssa.FieldAddr:
+		g, p, ok := ce.addrPath(x.X, get)
+		if !ok {
+			return nil, "", false
+		}
+		return g, fmt.Sprintf("%s.%d", p, x.Field), true
+	}
+	return nil, "", false
+}
+
+func pkgFunctions(pkg *ssa.Package) []*ssa.Function {
+	var fns []*ssa.Function
+	for _, m := range pkg.Members {
+		if f, ok := m.(*ssa.Function); ok {
+			fns = append(fns, f)
+			fns = append(fns, f.AnonFuncs...)
+		}
+		if t, ok := m.(*ssa.Type); ok {
+			for _, recv := range []types.Type{t.Type(), types.NewPointer(t.Type())} {
+				ms := pkg.Prog.MethodSets.MethodSet(recv)
+				for i := 0; i < ms.Len(); i++ {
+					if f := pkg.Prog.MethodValue(ms.At(i)); f != nil && f.Pkg == pkg {
+						fns = append(fns, f)
+						fns = append(fns, f.AnonFuncs...)
+					}
+				}
+			}
+		}
+	}
+	return fns
+}
+
+// globalCells reads a package-level array / struct variable whose cells are only written by the package initialiser
+// (its literal), with constants, and whose address is used for nothing but indexing, field selection, loads and those
+// stores. A cell that is absent has the zero value; a cell written with a non-constant is recorded as nil.
+func (ce *ConstEvaluator) globalCells(g *ssa.Global) (map[string]constant.Value, error) {
+	if t, ok := ce.cells[g]; ok {
+		if t == nil {
+			return nil, fmt.Errorf("variable %s is not a constant literal", g.Name())
+		}
+		return t, nil
+	}
+	ce.cells[g] = nil
+	tab := map[string]constant.Value{}
+	initFn := g.Pkg.Func("init")
+	var walk func(addr ssa.Value) error
+	walk = func(addr ssa.Value) error {
+		refs := addr.Referrers()
+		if refs == nil {
+			return nil
+		}
+		for _, r := range *refs {
+			switch x := r.(type) {
+			case *ssa.IndexAddr:
+				if x.X != addr {
+					return fmt.Errorf("variable %s: address used as an index", g.Name())
+				}
+				if err := walk(x); err != nil {
+					return err
+				}
+			case *ssa.FieldAddr:
+				if err := walk(x); err != nil {
+					return err
+				}
+			case *ssa.UnOp:
+				if x.Op != token.MUL {
+					return fmt.Errorf("variable %s: address used by %s", g.Name(), x.Op)
+				}
+			case *ssa.Store:
+				if x.Addr != addr {
+					return fmt.Errorf("variable %s: its address is stored in %s", g.Name(), x.Parent().Name())
+				}
+				if x.Parent() != initFn {
+					return fmt.Errorf("variable %s is written in %s", g.Name(), x.Parent().Name())
+				}
+				_, path, ok := ce.addrPath(addr, nil)
+				if !ok {
+					return fmt.Errorf("variable %s is written at a computed index", g.Name())
+				}
+				if cst, isC := x.Val.(*ssa.Const); isC {
+					val := cst.Value
+					if val == nil {
+						val = zeroConst(cst.Type())
+					}
+					if _, dup := tab[path]; dup {
+						return fmt.Errorf("variable %s: cell %s is written twice", g.Name(), path)
+					}
+					tab[path] = val
+				} else {
+					tab[path] = nil
+				}
+			case *ssa.DebugRef:
+			default:
+				return fmt.Errorf("variable %s: its address escapes in %s", g.Name(), r.Parent().Name())
+			}
+		}
+		return nil
+	}
+	// a Global is referenced from every function of the package: collect its uses there (Referrers of a Global is nil)
+	for _, f := range pkgFunctions(g.Pkg) {
+		for _, b := range f.Blocks {
+			for _, in := range b.Instrs {
+				var buf [8]*ssa.Value
+				for _, op := range in.Operands(buf[:0]) {
+					if op == nil || *op != ssa.Value(g) {
+						continue
+					}
+					switch x := in.(type) {
+					case *ssa.IndexAddr, *ssa.FieldAddr:
+						if err := walk(x.(ssa.Value)); err != nil {
+							return nil, err
+						}
+					case *ssa.UnOp:
+						if x.Op != token.MUL {
+							return nil, fmt.Errorf("variable %s: address used by %s", g.Name(), x.Op)
+						}
+					case *ssa.Store:
+						if x.Addr == ssa.Value(g) {
+							return nil, fmt.Errorf("variable %s is assigned as a whole in %s", g.Name(), f.Name())
+						}
+						return nil, fmt.Errorf("variable %s: its address is stored in %s", g.Name(), f.Name())
+					case *ssa.DebugRef:
+					default:
+						return nil, fmt.Errorf("variable %s: its address escapes in %s", g.Name(), f.Name())
+					}
+				}
+			}
+		}
+	}
+	ce.cells[g] = tab
 	return tab, nil
 }
 
